@@ -20,13 +20,22 @@ Qed.
 
 (* ---------------------------------------------------------------- small evaluation facts *)
 Lemma serr_vs_gerr guard s v :
-  pure s = true -> is_gerr_val v = true ->
-  (if is_nil s then Ok false
-   else if guard && negb (comparable s) then Ok false else iface_eq s v) = Ok false.
+  pure s = true -> is_gerr_val v = true -> converted_from guard s v = Ok false.
 Proof.
-  intros P G. destruct s; simpl in *; try discriminate; try reflexivity.
+  intros P G. unfold converted_from. destruct s; simpl in *; try discriminate; try reflexivity.
   destruct (guard && negb cmp); [reflexivity|]. destruct v; simpl in *; try discriminate; reflexivity.
 Qed.
+
+Lemma later_vs_gerr guard l v :
+  forallb pure l = true -> is_gerr_val v = true -> later_match guard l v = Ok false.
+Proof.
+  induction l as [|s r IH]; intros P G; simpl; [reflexivity|].
+  simpl in P. apply andb_true_iff in P as [P1 P2].
+  rewrite (serr_vs_gerr guard s v P1 G). cbn [bind_true]. apply IH; assumption.
+Qed.
+
+Lemma converted_nil guard v : converted_from guard VNil v = Ok false.
+Proof. reflexivity. Qed.
 
 Lemma origin_root st i c : nth_error st i = Some c -> g_fref (c_g c) = VNil -> origin st i = i.
 Proof. intros E F. unfold origin. rewrite E, F. reflexivity. Qed.
@@ -49,9 +58,8 @@ Lemma gis_S guard f st i err :
       bind_true (if g_isfac g then iface_eq (VG i) (extract_fref st err) else Ok false) (fun _ =>
       bind_true (iface_eq (VG i) err) (fun _ =>
       bind_true (if is_nil (g_fref g) then Ok false else iface_eq (g_fref g) err) (fun _ =>
-      bind_true (if is_nil (g_serr g) then Ok false
-                 else if guard && negb (comparable (g_serr g)) then Ok false
-                 else iface_eq (g_serr g) err) (fun _ =>
+      bind_true (converted_from guard (g_serr g) err) (fun _ =>
+      bind_true (later_match guard (g_later g) err) (fun _ =>
       match as_gerror err with
       | None => Ok false
       | Some _ =>
@@ -59,7 +67,7 @@ Lemma gis_S guard f st i err :
           | VNil => Ok false
           | u => gerr_is_gen guard f st i u
           end
-      end))))
+      end)))))
   end.
 Proof. reflexivity. Qed.
 
@@ -78,14 +86,20 @@ Section IsGerr.
     { unfold extract_fref; simpl. rewrite Ej, Fj. reflexivity. }
     assert (Uj : unwrap_val st (VG j) = VNil) by (simpl; rewrite Ej; exact Fj).
     rewrite Xj. cbn [as_gerror]. rewrite Uj.
-    destruct (W i ci Ei) as [Fi Si _ | o co Fi Eo _ _ _ Ni Pi].
-    - rewrite (origin_root st i ci Ei Fi), Fi, Si. simpl.
+    destruct (W i ci Ei) as [Fi Si Li _ | o co Fi Eo _ _ _ _ Pi PLi].
+    - rewrite (origin_root st i ci Ei Fi), Fi, Si, Li. simpl.
       destruct (g_isfac (c_g ci)), (g_isfac (c_g cj)); simpl; destruct (Nat.eqb i j); reflexivity.
-    - rewrite (origin_der st i ci o Ei Fi), Fi, Ni. cbn [is_nil iface_eq bind_true].
+    - rewrite (origin_der st i ci o Ei Fi), Fi.
       destruct (Nat.eqb_spec i j) as [->|Hij].
       + rewrite Ei in Ej. injection Ej as <-. congruence.
-      + cbn [bind_true]. destruct (Nat.eqb o j); cbn [bind_true]; [reflexivity|].
-        rewrite (serr_vs_gerr guard _ (VG j) Pi eq_refl). reflexivity.
+      + assert (Hfirst : (if g_isfac (c_g ci)
+                          then iface_eq (VG i) (if g_isfac (c_g cj) then VG j else VNil)
+                          else Ok false) = Ok false).
+        { destruct (g_isfac (c_g ci)); [|reflexivity]. destruct (g_isfac (c_g cj)); [|reflexivity].
+          rewrite ieq_GG. apply Nat.eqb_neq in Hij. rewrite Hij. reflexivity. }
+        rewrite Hfirst, ieq_GG. apply Nat.eqb_neq in Hij. rewrite Hij.
+        cbn [is_nil iface_eq bind_true]. destruct (Nat.eqb o j); cbn [bind_true]; [reflexivity|].
+        rewrite (serr_vs_gerr guard _ (VG j) Pi eq_refl), (later_vs_gerr guard _ (VG j) PLi eq_refl). reflexivity.
   Qed.
 
   (* target: an extension factory (root, made with FactoryOf) as handed out *)
@@ -99,45 +113,58 @@ Section IsGerr.
     { unfold extract_fref; simpl. rewrite Ej, Ij. reflexivity. }
     assert (Uj : unwrap_val st (VX j) = VNil) by (simpl; rewrite Ej; exact Fj).
     rewrite Ex. cbn [as_gerror]. rewrite Uj.
-    destruct (W i ci Ei) as [Fi Si _ | o co Fi Eo _ _ _ Ni Pi].
-    - rewrite Fi, Si. simpl.
+    destruct (W i ci Ei) as [Fi Si Li _ | o co Fi Eo _ _ _ _ Pi PLi].
+    - rewrite Fi, Si, Li. simpl.
       destruct (Nat.eqb_spec i j) as [->|Hij].
       + rewrite Ei in Ej. injection Ej as ->. rewrite Ij. reflexivity.
       + destruct (g_isfac (c_g ci)); reflexivity.
-    - rewrite Fi, Ni. cbn [is_nil iface_eq bind_true].
-      rewrite (serr_vs_gerr guard _ (VX j) Pi eq_refl). cbn [bind_true].
-      destruct (Nat.eqb_spec i j) as [->|Hij]; [|reflexivity].
-      rewrite Ei in Ej. injection Ej as <-. congruence.
+    - rewrite Fi.
+      destruct (Nat.eqb_spec i j) as [->|Hij]; [rewrite Ei in Ej; injection Ej as <-; congruence|].
+      assert (Hfirst : (if g_isfac (c_g ci) then iface_eq (VG i) (VG j) else Ok false) = Ok false).
+      { destruct (g_isfac (c_g ci)); [|reflexivity]. rewrite ieq_GG.
+        apply Nat.eqb_neq in Hij. rewrite Hij. reflexivity. }
+      rewrite Hfirst. cbn [is_nil iface_eq bind_true].
+      rewrite (serr_vs_gerr guard _ (VX j) Pi eq_refl), (later_vs_gerr guard _ (VX j) PLi eq_refl). cbn [bind_true].
+      reflexivity.
   Qed.
 
-  (* target: any derived error *)
+  (* target: any derived error (possibly turned into a factory itself) *)
   Lemma gis_derived i ci vb j cj oj coj f :
     nth_error st i = Some ci -> gv st vb = Some j -> nth_error st j = Some cj ->
     g_fref (c_g cj) = VG oj -> nth_error st oj = Some coj -> g_fref (c_g coj) = VNil ->
-    g_isfac (c_g cj) = false ->
     gerr_is_gen guard (S (S f)) st i vb = Ok (Nat.eqb (origin st i) oj).
   Proof.
-    intros Ei Gv Ej Fj Eoj Foj Nj.
+    intros Ei Gv Ej Fj Eoj Foj.
     destruct (gv_cell _ _ _ Gv) as [cj' [Ej' Ag]]. rewrite Ej in Ej'. injection Ej' as <-.
     assert (Gb : is_gerr_val vb = true) by (destruct vb; simpl in *; try discriminate; reflexivity).
-    assert (Ex : extract_fref st vb = VG oj).
-    { unfold extract_fref. rewrite Ag, Ej, Nj. exact Fj. }
+    assert (Ex : extract_fref st vb = if g_isfac (c_g cj) then VG j else VG oj).
+    { unfold extract_fref. rewrite Ag, Ej, Fj. reflexivity. }
     assert (Ub : unwrap_val st vb = VG oj).
     { destruct vb; simpl in Ag; try discriminate; injection Ag as ->; simpl; rewrite Ej; exact Fj. }
     pose proof (gis_root_VG i ci oj coj f Ei Eoj Foj) as Rec.
     rewrite gis_S, Ei. cbv zeta. rewrite Ex, Ag, Ub.
+    (* e.isFactory && e == ExtractFactoryReference(err): true only within the same family *)
+    assert (Hfirst : exists b1,
+               (if g_isfac (c_g ci)
+                then iface_eq (VG i) (if g_isfac (c_g cj) then VG j else VG oj) else Ok false) = Ok b1
+               /\ (b1 = true -> origin st i = oj)).
+    { destruct (g_isfac (c_g ci)); [|exists false; split; [reflexivity|discriminate]].
+      destruct (g_isfac (c_g cj)); rewrite ieq_GG; eexists; (split; [reflexivity|]); intros H;
+        apply Nat.eqb_eq in H; subst i.
+      - rewrite Ei in Ej. injection Ej as <-. exact (origin_der st j ci oj Ei Fj).
+      - rewrite Ei in Eoj. injection Eoj as <-. exact (origin_root st oj ci Ei Foj). }
+    destruct Hfirst as [b1 [E1 T1]]. rewrite E1. destruct b1; cbn [bind_true].
+    { rewrite (T1 eq_refl), Nat.eqb_refl. reflexivity. }
     (* e == err can only hold for the same derived error *)
     assert (Hself : iface_eq (VG i) vb = Ok false \/ (vb = VG i /\ i = j)).
     { destruct vb as [|k|k|]; simpl in Ag; try discriminate; injection Ag as ->; simpl; [|left; reflexivity].
       destruct (Nat.eqb_spec i j) as [->|]; [right; split; reflexivity|left; reflexivity]. }
-    destruct (W i ci Ei) as [Fi Si _ | o co Fi Eo Fo _ _ Ni Pi].
-    - rewrite (origin_root st i ci Ei Fi) in *. rewrite Fi, Si. cbn [is_nil bind_true].
+    destruct (W i ci Ei) as [Fi Si Li _ | o co Fi Eo Fo _ _ _ Pi PLi].
+    - rewrite (origin_root st i ci Ei Fi) in *. rewrite Fi, Si, Li, converted_nil.
+      cbn [is_nil bind_true later_match].
       destruct Hself as [Hne|[-> <-]]; [|rewrite Ei in Ej; injection Ej as ->; congruence].
-      rewrite Hne. rewrite ieq_GG.
-      destruct (g_isfac (c_g ci)); cbn [bind_true].
-      + destruct (Nat.eqb i oj) eqn:Eq; cbn [bind_true]; [reflexivity|]. rewrite Rec. reflexivity.
-      + exact Rec.
-    - rewrite (origin_der st i ci o Ei Fi) in *. rewrite Fi, Ni. cbn [is_nil bind_true].
+      rewrite Hne. cbn [bind_true]. exact Rec.
+    - rewrite (origin_der st i ci o Ei Fi) in *. rewrite Fi. cbn [is_nil bind_true].
       destruct Hself as [Hne|[-> <-]].
       + rewrite Hne. cbn [bind_true].
         (* e.factoryRef == err: err is derived, the back-reference points at a root *)
@@ -146,7 +173,7 @@ Section IsGerr.
           destruct (Nat.eqb_spec o j) as [->|]; [|reflexivity].
           rewrite Eo in Ej. injection Ej as ->. congruence. }
         rewrite Hfr. cbn [bind_true].
-        rewrite (serr_vs_gerr guard _ vb Pi Gb). cbn [bind_true]. exact Rec.
+        rewrite (serr_vs_gerr guard _ vb Pi Gb), (later_vs_gerr guard _ vb PLi Gb). cbn [bind_true]. exact Rec.
       + rewrite ieq_GG, Nat.eqb_refl. cbn [bind_true].
         rewrite Ei in Ej. injection Ej as <-. rewrite Fi in Fj. injection Fj as ->.
         rewrite Nat.eqb_refl. reflexivity.
@@ -184,7 +211,7 @@ Section IsGG.
                     (exists cj, nth_error st j = Some cj /\ g_fref (c_g cj) = VNil /\ vb = VX j /\ i <> j)).
   Proof.
     intros Ei Gv. destruct (gv_cell _ _ _ Gv) as [cj [Ej Ag]].
-    destruct (W j cj Ej) as [Fj Sj Xj | oj coj Fj Eoj Foj _ _ Nj _].
+    destruct (W j cj Ej) as [Fj Sj _ Xj | oj coj Fj Eoj Foj _ _ _ _ _].
     - rewrite (origin_root st j cj Ej Fj).
       destruct vb as [|k|k|]; simpl in Ag; try discriminate; injection Ag as ->.
       + rewrite (gis_root_VG guard st W i ci j cj (S f) Ei Ej Fj). eexists. split; [reflexivity|].
@@ -197,7 +224,7 @@ Section IsGG.
         * apply Nat.eqb_eq in H. subst j. exact (origin_root st i cj Ej Fj).
         * apply Nat.eqb_neq in H. right. exists cj. auto.
     - rewrite (origin_der st j cj oj Ej Fj).
-      rewrite (gis_derived guard st W i ci vb j cj oj coj f Ei Gv Ej Fj Eoj Foj Nj).
+      rewrite (gis_derived guard st W i ci vb j cj oj coj f Ei Gv Ej Fj Eoj Foj).
       eexists. split; [reflexivity|]. split; intros H.
       + apply Nat.eqb_eq in H. exact H.
       + apply Nat.eqb_neq in H. left. exact H.
@@ -236,7 +263,7 @@ Section IsGG.
     assert (Ua : unwrap_val st va = g_fref (c_g ci)).
     { destruct va; simpl in Aa; try discriminate; injection Aa as ->; simpl; rewrite Ei; reflexivity. }
     rewrite Ua.
-    destruct (W i ci Ei) as [Fi Si Xi | o co Fi Eo Fo So Xo Ni Pi].
+    destruct (W i ci Ei) as [Fi Si Li Xi | o co Fi Eo Fo So Lo Xo Pi PLi].
     - (* a root that did not match *)
       rewrite Fi. rewrite (origin_root st i ci Ei Fi) in *.
       destruct F1 as [Hne'|[cj' [Ej' [Fj' [-> Hij]]]]].
@@ -277,36 +304,51 @@ Definition serr_match (s vb : val) : bool :=
   | _, _ => false
   end.
 
+(* does any error recorded by Convert match the target *)
+Definition conv_match (g : gerr) (vb : val) : bool :=
+  serr_match (g_serr g) vb || existsb (fun s => serr_match s vb) (g_later g).
+
+Lemma converted_from_foreign s t c p u :
+  converted_from true s (VF t c p u) = Ok (serr_match s (VF t c p u)).
+Proof.
+  unfold converted_from. destruct s as [|k|k|t0 c0 p0 u0]; try reflexivity.
+  simpl. destruct c0; simpl.
+  - destruct (N.eqb t0 t); simpl; [|reflexivity]. destruct c; simpl; reflexivity.
+  - rewrite !andb_false_r. reflexivity.
+Qed.
+
+Lemma later_match_foreign l t c p u :
+  later_match true l (VF t c p u) = Ok (existsb (fun s => serr_match s (VF t c p u)) l).
+Proof.
+  induction l as [|s r IH]; [reflexivity|].
+  cbn [later_match existsb]. rewrite converted_from_foreign.
+  destruct (serr_match s (VF t c p u)); cbn [bind_true orb]; [reflexivity|exact IH].
+Qed.
+
 Section IsForeign.
   Variable st : store.
   Hypothesis W : wf st.
 
   Lemma gis_foreign i ci t c p u f :
     nth_error st i = Some ci ->
-    gerr_is_gen true (S f) st i (VF t c p u) = Ok (serr_match (g_serr (c_g ci)) (VF t c p u)).
+    gerr_is_gen true (S f) st i (VF t c p u) = Ok (conv_match (c_g ci) (VF t c p u)).
   Proof.
     intros Ei. rewrite gis_S, Ei. cbv zeta.
     assert (Ex : extract_fref st (VF t c p u) = VNil) by reflexivity. rewrite Ex.
-    assert (Hs : (if is_nil (g_serr (c_g ci)) then Ok false
-                  else if true && negb (comparable (g_serr (c_g ci))) then Ok false
-                       else iface_eq (g_serr (c_g ci)) (VF t c p u))
-                 = Ok (serr_match (g_serr (c_g ci)) (VF t c p u))).
-    { destruct (g_serr (c_g ci)) as [|k|k|t0 c0 p0 u0]; try reflexivity.
-      simpl. destruct c0; simpl.
-      - destruct (N.eqb t0 t); simpl; [|reflexivity]. destruct c; simpl; reflexivity.
-      - rewrite !andb_false_r. reflexivity. }
-    destruct (W i ci Ei) as [Fi Si _ | o co Fi Eo _ _ _ Ni Pi].
-    - rewrite Fi in *. rewrite Hs. simpl. destruct (g_isfac (c_g ci)); simpl;
-        destruct (serr_match (g_serr (c_g ci)) (VF t c p u)); reflexivity.
-    - rewrite Fi, Ni in *. rewrite Hs. simpl.
-      destruct (serr_match (g_serr (c_g ci)) (VF t c p u)); reflexivity.
+    rewrite converted_from_foreign, later_match_foreign. unfold conv_match.
+    set (A := serr_match (g_serr (c_g ci)) (VF t c p u)).
+    set (B := existsb (fun s => serr_match s (VF t c p u)) (g_later (c_g ci))).
+    clearbody A B.
+    destruct (W i ci Ei) as [Fi Si Li _ | o co Fi Eo _ _ _ _ Pi PLi].
+    - rewrite Fi. simpl. destruct (g_isfac (c_g ci)), A, B; reflexivity.
+    - rewrite Fi. simpl. destruct (g_isfac (c_g ci)), A, B; reflexivity.
   Qed.
 
-  (* errors.Is(gerror value, foreign value): true exactly when the recorded converted error
+  (* errors.Is(gerror value, foreign value): true exactly when a recorded converted error
      equals the target; never a panic (repaired code) *)
   Lemma errors_is_gf va i ci t c p u :
     gv st va = Some i -> nth_error st i = Some ci ->
-    errors_is st va (VF t c p u) = Ok (serr_match (g_serr (c_g ci)) (VF t c p u)).
+    errors_is st va (VF t c p u) = Ok (conv_match (c_g ci) (VF t c p u)).
   Proof.
     intros Ga Ei. destruct (gv_cell _ _ _ Ga) as [ci' [Ei' Aa]]. rewrite Ei in Ei'. injection Ei' as <-.
     unfold errors_is, errors_is_gen.
@@ -319,16 +361,16 @@ Section IsForeign.
     assert (Hne : (if comparable (VF t c p u) then iface_eq va (VF t c p u) else Ok false) = Ok false).
     { destruct va; simpl in Aa; try discriminate; simpl; destruct c; reflexivity. }
     rewrite Hne. cbn [bind_true]. rewrite (gis_foreign i ci t c p u _ Ei).
-    destruct (serr_match (g_serr (c_g ci)) (VF t c p u)) eqn:M; cbn [bind_true]; [reflexivity|].
+    destruct (conv_match (c_g ci) (VF t c p u)) eqn:M; cbn [bind_true]; [reflexivity|].
     assert (Ua : unwrap_val st va = g_fref (c_g ci)).
     { destruct va; simpl in Aa; try discriminate; injection Aa as ->; simpl; rewrite Ei; reflexivity. }
     rewrite Ua.
-    destruct (W i ci Ei) as [Fi Si _ | o co Fi Eo Fo So _ Ni Pi]; rewrite Fi; [reflexivity|].
+    destruct (W i ci Ei) as [Fi Si Li _ | o co Fi Eo Fo So Lo _ Pi PLi]; rewrite Fi; [reflexivity|].
     rewrite loop_S. cbn [as_gerror].
     assert (Hne2 : (if comparable (VF t c p u) then iface_eq (VG o) (VF t c p u) else Ok false) = Ok false).
     { simpl; destruct c; reflexivity. }
-    rewrite Hne2. cbn [bind_true]. rewrite (gis_foreign o co t c p u _ Eo), So.
-    simpl. rewrite Eo, Fo. reflexivity.
+    rewrite Hne2. cbn [bind_true]. rewrite (gis_foreign o co t c p u _ Eo). unfold conv_match.
+    rewrite So, Lo. simpl. rewrite Eo, Fo. reflexivity.
   Qed.
 End IsForeign.
 
@@ -383,13 +425,15 @@ Qed.
 Lemma extract_gerr st v j cj :
   wf st -> gv st v = Some j -> nth_error st j = Some cj ->
   extract_fref st v =
-  if is_nil (g_fref (c_g cj)) then (if g_isfac (c_g cj) then VG j else VNil) else VG (origin st j).
+  if g_isfac (c_g cj) then VG j
+  else if is_nil (g_fref (c_g cj)) then VNil else VG (origin st j).
 Proof.
   intros W G Ej. destruct (gv_cell _ _ _ G) as [c' [E' A]]. rewrite Ej in E'. injection E' as <-.
   unfold extract_fref. rewrite A, Ej.
-  destruct (W j cj Ej) as [Fj _ _ | o co Fj _ _ _ _ Nj _].
-  - rewrite Fj. simpl. destruct (g_isfac (c_g cj)); reflexivity.
-  - rewrite Fj, Nj. simpl. rewrite (origin_der st j cj o Ej Fj). reflexivity.
+  destruct (g_isfac (c_g cj)); [reflexivity|].
+  destruct (W j cj Ej) as [Fj _ _ _ | o co Fj _ _ _ _ _ _ _].
+  - rewrite Fj. reflexivity.
+  - rewrite Fj. simpl. rewrite (origin_der st j cj o Ej Fj). reflexivity.
 Qed.
 
 (* ---------------------------------------------------------------- calls preserve well-formedness *)
@@ -416,6 +460,23 @@ Proof.
     + destruct k; discriminate.
 Qed.
 
+(* the converted errors a clone carries *)
+Definition serr_after (old new : val) : val := if is_nil old && negb (is_nil new) then new else old.
+Definition later_after (old : val) (l : list val) (new : val) : list val :=
+  if is_nil old && negb (is_nil new) then l else if negb (is_nil new) then l ++ [new] else l.
+
+Lemma clone_fields w g bp ep a :
+  g_fref (apply_wiring w g bp ep a)
+  = (let f := if is_nil (g_fref g) then bp else g_fref g in
+     if is_nil f && g_isfac g then ep else f)
+  /\ g_serr (apply_wiring w g bp ep a) = serr_after (g_serr g) (eval_e a (w_serr w))
+  /\ g_later (apply_wiring w g bp ep a) = later_after (g_serr g) (g_later g) (eval_e a (w_serr w))
+  /\ g_isfac (apply_wiring w g bp ep a) = false.
+Proof.
+  unfold apply_wiring, clone_base, serr_after, later_after.
+  repeat match goal with |- context [if ?c then _ else _] => destruct c end; simpl; repeat split; reflexivity.
+Qed.
+
 (* the record CloneBase builds from a well-formed cell *)
 Lemma clone_shape st i ci w a xo bp ep :
   wf st -> nth_error st i = Some ci -> bp = VG i ->
@@ -426,33 +487,25 @@ Proof.
   intros W Ei -> Adm Ng.
   assert (Pe : pure (eval_e a (w_serr w)) = true).
   { destruct (w_serr w); simpl in *; [reflexivity|]. apply (pure_admissible_serr st); assumption. }
-  set (g' := apply_wiring w (c_g ci) (VG i) ep a).
-  assert (Hf : g_isfac g' = false).
-  { unfold g', apply_wiring, clone_base.
-    repeat match goal with |- context [if ?c then _ else _] => destruct c end; reflexivity. }
-  destruct (W i ci Ei) as [Fi Si Xi | o co Fi Eo Fo So Xo Ni Pi].
+  destruct (clone_fields w (c_g ci) (VG i) ep a) as [Hr [Hs [Hl Hf]]].
+  set (g' := apply_wiring w (c_g ci) (VG i) ep a) in *.
+  set (ne := eval_e a (w_serr w)) in *.
+  destruct (W i ci Ei) as [Fi Si Li Xi | o co Fi Eo Fo So Lo Xo Pi PLi].
   - (* receiver is a root: the clone points back at it *)
-    assert (Hr : g_fref g' = VG i).
-    { unfold g', apply_wiring, clone_base. rewrite Fi. simpl.
-      repeat match goal with |- context [if ?c then _ else _] => destruct c end; reflexivity. }
-    assert (Hs : g_serr g' = eval_e a (w_serr w)).
-    { unfold g', apply_wiring, clone_base. rewrite Si. simpl.
-      destruct (eval_e a (w_serr w)); simpl;
-      repeat match goal with |- context [if ?c then _ else _] => destruct c end; reflexivity. }
+    rewrite Fi in Hr. simpl in Hr. rewrite Si in Hs, Hl. rewrite Li in Hl.
     eapply ShDer with (o := i) (co := ci); simpl; fold g'; auto.
     + rewrite nth_error_app1; [exact Ei|]. apply nth_error_Some. congruence.
-    + rewrite Hs. exact Pe.
+    + rewrite Hs. unfold serr_after. simpl. destruct (is_nil ne); simpl; [reflexivity|exact Pe].
+    + rewrite Hl. unfold later_after. simpl. destruct (is_nil ne); reflexivity.
   - (* receiver is derived: the clone inherits its back-reference *)
-    assert (Hr : g_fref g' = VG o).
-    { unfold g', apply_wiring, clone_base. rewrite Fi. simpl.
-      repeat match goal with |- context [if ?c then _ else _] => destruct c end; reflexivity. }
-    assert (Hs : pure (g_serr g') = true).
-    { unfold g', apply_wiring, clone_base.
-      destruct (g_serr (c_g ci)) eqn:Es; simpl in Pi |- *; try discriminate;
-      destruct (eval_e a (w_serr w)); simpl in Pe |- *; try discriminate;
-      repeat match goal with |- context [if ?c then _ else _] => destruct c end; simpl; auto. }
+    rewrite Fi in Hr. simpl in Hr.
     eapply ShDer with (o := o) (co := co); simpl; fold g'; auto.
-    rewrite nth_error_app1; [exact Eo|]. apply nth_error_Some. congruence.
+    + rewrite nth_error_app1; [exact Eo|]. apply nth_error_Some. congruence.
+    + rewrite Hs. unfold serr_after. destruct (is_nil (g_serr (c_g ci)) && negb (is_nil ne)); assumption.
+    + rewrite Hl. unfold later_after.
+      destruct (is_nil (g_serr (c_g ci)) && negb (is_nil ne)); [exact PLi|].
+      destruct (negb (is_nil ne)); [|exact PLi].
+      rewrite forallb_app, PLi. simpl. rewrite Pe. reflexivity.
 Qed.
 
 Lemma base_wiring_guarded : guarded_wiring base_wiring.
